@@ -13,7 +13,7 @@ RULE = ("payload texts T (markup look-alikes, fence runs shorter than the fence,
         "payload (line endings normalised; for spans line endings -> spaces and one pair of padding spaces removed) and the HTML "
         "shows its escaped form; plus cutws/indent unit cases tying the tab-stop arithmetic to the model. Non-trivial = payload "
         "contains markup, a tab or a fence look-alike; distinct = distinct (payload, context).")
-PIECES = ["*a*", "_b_", "`", "``", "```", "~~~", "~~", "&amp;", "&#65;", "\\*", "\\", "<b>", "</b>", "[x](y)", "# h", "- l", "> q", "1. o", "    ", "\t", "\t\t", " \t", "é", "𝄞", "\0", "a", "b c", "  ",
+PIECES = ["~```", "`~~~", "~``", "`~~", "~````", "`~~~~", "*a*", "_b_", "`", "``", "```", "~~~", "~~", "&amp;", "&#65;", "\\*", "\\", "<b>", "</b>", "[x](y)", "# h", "- l", "> q", "1. o", "    ", "\t", "\t\t", " \t", "é", "𝄞", "\0", "a", "b c", "  ",
           "---", "===", "[r]: /u", "<!-- -->", "|", "$", "%", "xx", "@@@"]
 
 
@@ -29,8 +29,11 @@ def max_run(s, ch):
     return max([len(m) for m in re.findall(re.escape(ch) + "+", s)] + [0])
 
 
-def in_quote(d):
-    return "\n".join("> " + l for l in d.split("\n"))
+QP = ["> ", "> ", " > ", "> > ", "  > ", ">  > "]
+
+
+def in_quote(d, pre="> "):
+    return "\n".join(pre + l for l in d.split("\n"))
 
 
 def in_item(d):
@@ -43,7 +46,8 @@ def cases(rng, tier, Case):
     n = 700 if tier == "quick" else 40000
     for _ in range(n):
         ctx = rng.choice(["top", "top", "quote", "item"])
-        wrapf = {"top": lambda d: d, "quote": in_quote, "item": in_item}[ctx]
+        qp = rng.choice(QP)
+        wrapf = {"top": lambda d: d, "quote": (lambda d: in_quote(d, qp)), "item": in_item}[ctx]
         kind = rng.choice(["fence", "fence", "indent", "span"])
         if kind == "fence":
             t = payload(rng, True)
@@ -52,15 +56,13 @@ def cases(rng, tier, Case):
             info = rng.choice(["", "", "rust", " x y"])
             d = m * k + info + "\n" + t + "\n" + m * k
             want = t + "\n"
-            if ctx != "top" and "\t" in t:
-                continue          # tab stops inside containers are a different relation (C06 is tab-free as well)
+            if ctx != "top" and any(l.startswith("\t") is False and "\t" in l[:1] for l in t.split("\n")):
+                continue
             res.append(Case("parse CsW 100 TR %s" % hx(wrapf(d)), "fence-" + ctx, {"kind": "CodeFence", "want": hx(want), "src": hx(t)}))
         elif kind == "indent":
             t = payload(rng, True)
             ls = t.split("\n")
             if not ls[0].strip(" \t") or not ls[-1].strip(" \t"):
-                continue
-            if ctx != "top" and "\t" in t:
                 continue
             d = "\n".join(("    " + l) if l.strip(" \t") else l for l in ls)
             # blank lines inside keep whatever is beyond four columns; we use empty blank lines
